@@ -154,6 +154,13 @@ fn methods_block(thorough: bool) -> (VioSink, Tally) {
 				}
 				Ok(Err(_)) => {
 					Tally::add(&t.err, 1);
+					// every other check explores "every length": a constructor that rejects a plainly valid length
+					// (documented minimum .. 126, below every documented maximum) would silently shrink them all
+					if let Params::N(n) = p {
+						if !too_small && (*n as u64) >= 1 && (*n as u64) <= 126 {
+							sink.push(&format!("{name}/new/rejected-valid-length"), format!("{name}::new({})", p.show()), "the constructor returned Err for a length inside every documented range".into());
+						}
+					}
 					None
 				}
 				Ok(Ok(m)) => {
